@@ -148,6 +148,13 @@ type provOpts struct {
 	// callThrough: for a call (static or invoke), return the values to continue with instead of making the
 	// call a root (e.g. look through x.Writable() to x).
 	callThrough func(c *ssa.Call) ([]ssa.Value, bool)
+	// phiControl: a phi also depends on the conditions that select among its incoming edges.
+	phiControl bool
+	// sliceLen: a slice expression also depends on its bounds (used when the question is "how long").
+	sliceLen bool
+	// lenOfMake: a freshly made slice depends on its length operand.
+	lenOfMake bool
+	// cells: a load of a local cell captured by closures unions the stores made in the closures too.
 	// bindStop: do not bind this parameter to its callers' actuals (API boundary).
 	bindStop func(p *ssa.Parameter) bool
 	max      int
@@ -244,6 +251,11 @@ func (c *provCtx) visit(v ssa.Value) {
 		for _, e := range x.Edges {
 			c.visit(e)
 		}
+		if c.o.phiControl {
+			for _, cond := range phiControls(x) {
+				c.visit(cond)
+			}
+		}
 	case *ssa.BinOp:
 		c.p.BinOps = append(c.p.BinOps, x)
 		c.visit(x.X)
@@ -286,6 +298,14 @@ func (c *provCtx) visit(v ssa.Value) {
 		}
 	case *ssa.Slice:
 		c.visit(x.X)
+		if c.o.sliceLen {
+			if x.Low != nil {
+				c.visit(x.Low)
+			}
+			if x.High != nil {
+				c.visit(x.High)
+			}
+		}
 	case *ssa.SliceToArrayPointer:
 		c.visit(x.X)
 	case *ssa.Index:
@@ -305,7 +325,12 @@ func (c *provCtx) visit(v ssa.Value) {
 	case *ssa.Alloc:
 		// the address itself: union of stored values (for `&local`)
 		c.load(x)
-	case *ssa.MakeSlice, *ssa.MakeMap, *ssa.MakeChan:
+	case *ssa.MakeSlice:
+		c.root(Root{Kind: RAlloc, Val: v})
+		if c.o.lenOfMake {
+			c.visit(x.Len)
+		}
+	case *ssa.MakeMap, *ssa.MakeChan:
 		c.root(Root{Kind: RAlloc, Val: v})
 	case *ssa.MakeClosure:
 		c.root(Root{Kind: ROther, Val: v})
@@ -329,6 +354,14 @@ func (c *provCtx) load(addr ssa.Value) {
 	case *ssa.Alloc:
 		// union of values stored into the alloc (and into its fields/elements, coarse)
 		found := false
+		if a.Heap {
+			for _, st := range cellStores(a) {
+				if st.Parent() != a.Parent() {
+					found = true
+					c.visit(st.Val)
+				}
+			}
+		}
 		for _, ref := range *a.Referrers() {
 			switch s := ref.(type) {
 			case *ssa.Store:
@@ -375,6 +408,9 @@ func (c *provCtx) load(addr ssa.Value) {
 		c.root(Root{Kind: RGlobal, Val: a})
 	case *ssa.FreeVar:
 		// captured variable (pointer to a local of the parent): union of stores in parent and closures
+		for _, st := range cellStores(a) {
+			c.visit(st.Val)
+		}
 		c.visit(a)
 	default:
 		c.visit(addr)
@@ -613,4 +649,120 @@ func shortVal(v ssa.Value) string {
 		s = s[:80] + "…"
 	}
 	return s
+}
+
+// phiControls returns the conditions of the branches that select among the incoming edges of a phi:
+// the Ifs met on the dominator chain from each predecessor up to the phi block's immediate dominator.
+func phiControls(ph *ssa.Phi) []ssa.Value {
+	var out []ssa.Value
+	seen := map[*ssa.BasicBlock]bool{}
+	stop := ph.Block().Idom()
+	for _, pred := range ph.Block().Preds {
+		for b := pred; b != nil; b = b.Idom() {
+			if seen[b] {
+				break
+			}
+			seen[b] = true
+			if iff, ok := lastInstr(b).(*ssa.If); ok {
+				out = append(out, iff.Cond)
+			}
+			if b == stop {
+				break
+			}
+		}
+	}
+	return out
+}
+
+// cellStores returns every store to the local cell addr (an Alloc, or a FreeVar bound to one),
+// in the declaring function and in all closures that capture it.
+func cellStores(addr ssa.Value) []*ssa.Store {
+	// resolve to the root alloc
+	root := addr
+	for i := 0; i < 8; i++ {
+		fv, ok := root.(*ssa.FreeVar)
+		if !ok {
+			break
+		}
+		fn := fv.Parent()
+		idx := -1
+		for k, x := range fn.FreeVars {
+			if x == fv {
+				idx = k
+			}
+		}
+		parent := fn.Parent()
+		if parent == nil || idx < 0 {
+			break
+		}
+		var bound ssa.Value
+		for _, pf := range withClosures(parent) {
+			allInstrs(pf, func(ins ssa.Instruction) {
+				if mc, ok := ins.(*ssa.MakeClosure); ok && mc.Fn == ssa.Value(fn) && idx < len(mc.Bindings) {
+					bound = mc.Bindings[idx]
+				}
+			})
+		}
+		if bound == nil {
+			break
+		}
+		root = bound
+	}
+	al, ok := root.(*ssa.Alloc)
+	if !ok {
+		return nil
+	}
+	var out []*ssa.Store
+	var scan func(fn *ssa.Function, cell ssa.Value)
+	scan = func(fn *ssa.Function, cell ssa.Value) {
+		allInstrs(fn, func(ins ssa.Instruction) {
+			switch x := ins.(type) {
+			case *ssa.Store:
+				if x.Addr == cell {
+					out = append(out, x)
+				}
+			case *ssa.MakeClosure:
+				if f, ok := x.Fn.(*ssa.Function); ok {
+					for i, b := range x.Bindings {
+						if b == cell && i < len(f.FreeVars) {
+							scan(f, f.FreeVars[i])
+						}
+					}
+				}
+			}
+		})
+	}
+	scan(al.Parent(), al)
+	return out
+}
+
+// unspill maps a load from a local cell that is initialised once from a parameter (go/ssa spills captured
+// parameters into cells) back to that parameter.
+func unspillParam(v ssa.Value) ssa.Value {
+	ld, ok := v.(*ssa.UnOp)
+	if !ok || ld.Op != token.MUL {
+		return v
+	}
+	al, ok := ld.X.(*ssa.Alloc)
+	if !ok {
+		return v
+	}
+	var src ssa.Value
+	n := 0
+	for _, st := range cellStores(al) {
+		n++
+		src = st.Val
+	}
+	if n == 0 {
+		for _, ref := range *al.Referrers() {
+			if st, ok := ref.(*ssa.Store); ok && st.Addr == ssa.Value(al) {
+				n++
+				src = st.Val
+			}
+		}
+	}
+	if p, ok := src.(*ssa.Parameter); ok && n == 1 {
+		return p
+	}
+	return v
 }
